@@ -45,10 +45,22 @@ def compile_all(text, cpp_full=True, syntax=True):
         with open(os.path.join(work, 'm.py')) as f:
             py = f.read()
         try:
-            pyh.load_module_text(py)
+            ns = pyh.load_module_text(py)
         except Exception as ex:
             return 'unusable', "prophyc accepted the schema but the generated Python module does not import: %s: %s" % (
                 type(ex).__name__, str(ex)[:300])
+        if 'XNS' in ns:
+            # usable = at least the default value of the extras' struct can be encoded and read back
+            try:
+                for e in '<>':
+                    x = ns['XNS']()
+                    data = x.encode(e)
+                    y = ns['XNS']()
+                    if len(data) != ns['XNS']._SIZE or y.decode(data, e) != len(data) or y.encode(e) != data:
+                        return 'unusable', "the default value of XNS (enumerators / discriminators in [-2^31, 2^32)) does not round-trip"
+            except Exception as ex:
+                return 'unusable', ("prophyc accepted enumerators / discriminators that the generated Python codec cannot "
+                                    "encode: %s: %s" % (type(ex).__name__, str(ex)[:200]))
         if syntax:
             for fn in (['m.ppf.cpp'] if cpp_full else []) + ['m.pp.cpp']:
                 try:
@@ -101,6 +113,10 @@ def breakers(draw, schema):
         'R10 sizer optional': _struct_text('XBad', ['u32* n;', 'u8 a<@n>;']),
         'R11a sizer float': _struct_text('XBad', ['float n;', 'u8 a<@n>;']),
         'R11b sizer composite': 'struct XS\n{\n    u8 q;\n};\n' + _struct_text('XBad', ['XS n;', 'u8 a<@n>;']),
+        'R11c sizer is a fixed array': _struct_text('XBad', ['u8 n[2];', 'u8 a<@n>;']),
+        'R11d sizer is a dynamic array': _struct_text('XBad', ['u16 n<>;', 'u8 a<@n>;']),
+        'R11e sizer is an enum': 'enum XSE\n{\n    XSE_a = 1\n};\n' + _struct_text('XBad', ['XSE n;', 'u8 a<@n>;']),
+        'R11f sizer typedef of double': 'typedef double XTD;\ntypedef XTD XTD2;\n' + _struct_text('XBad', ['XTD2 n;', 'u8 a<@n>;']),
         'R12a duplicate field name': _struct_text('XBad', ['u8 a;', 'u16 a;']),
         'R12b duplicate type name': _struct_text('XBad', ['u8 a;']) + _struct_text('XBad', ['u8 b;']),
         'R12c duplicate enumerator name': 'enum XE1\n{\n    XE_a = 1\n};\nenum XE2\n{\n    XE_a = 2\n};\n',
@@ -147,12 +163,28 @@ def token_mutant(draw, text):
     return ' '.join(toks) + '\n'
 
 
+def valid_extras(draw):
+    """Legal but unusual values: enumerators and discriminators anywhere in [-2^31, 2^32) (the documented 32-bit
+    range; distinct modulo 2^32), used by a struct whose default value must be encodable (see compile_all)."""
+    neg = st.integers(-(1 << 31), -1)
+    pos = st.one_of(st.integers(0, 9), st.integers(0, (1 << 32) - 1), st.sampled_from([(1 << 31) - 1, 1 << 31, (1 << 32) - 1]))
+    vals = draw(st.lists(st.one_of(neg, pos), min_size=2, max_size=4, unique_by=lambda v: v % (1 << 32)))
+    discs = draw(st.lists(st.one_of(neg, pos), min_size=2, max_size=3, unique_by=lambda v: v % (1 << 32)))
+    arms = ['u8', 'XNE', 'u64']
+    return ('enum XNE\n{\n%s\n};\n' % ',\n'.join('    XNE_%d = %d' % (i, v) for i, v in enumerate(vals)) +
+            'union XNU\n{\n%s\n};\n' % '\n'.join('    %d: %s a%d;' % (d, arms[i], i) for i, d in enumerate(discs)) +
+            'struct XNS\n{\n    XNE e;\n    XNU u;\n    XNE es<2>;\n    XNU* ou;\n};\n')
+
+
 @st.composite
 def cases(draw, opts):
     schema = draw(gen.schemas(opts))
     kind = draw(st.sampled_from(['valid', 'breaker', 'breaker', 'mutant']))
     if kind == 'valid':
-        return kind, None, schema, schema.to_prophy()
+        text = schema.to_prophy()
+        if draw(st.booleans()):
+            text += valid_extras(draw)
+        return kind, None, schema, text
     if kind == 'breaker':
         rid, text = breakers(draw, schema)
         return kind, rid, schema, text
